@@ -33,7 +33,7 @@ def holdsS : SSt → Bool
   | _ => false
 
 def holdsP : MPc → Bool
-  | .cC | .cU | .dInfU | .pollU _ | .finU _ | .sFlagUA | .sFlagU | .sChkU | .jU _ | .jUnone | .p5U => true
+  | .cC | .cU | .dInfU | .pollU _ | .finU _ | .sFlagUA | .sFlagU | .sChkU | .jU _ | .jUnone | .p5U | .rsU | .stU | .kC | .kU => true
   | .inCall c => holdsCall c
   | _ => false
 
@@ -53,7 +53,7 @@ def locksS : SSt → Bool
   | _ => false
 
 def locksP : MPc → Bool
-  | .cL | .dInfL | .pollL _ | .finL _ | .sFlagL | .sChkL | .jL | .p5L => true
+  | .cL | .dInfL | .pollL _ | .finL _ | .sFlagL | .sChkL | .jL | .p5L | .rsL | .stL | .kL => true
   | .inCall c => c.locks
   | _ => false
 
@@ -107,9 +107,17 @@ def seqPc : MPc → Bool
   | .finL k | .finU k => k != .drain
   | _ => false
 
-/-- controller: a join loop has completed / the pool was found already shut down -/
+/-- controller: its own join loop has completed -/
 def qPc : MPc → Bool
-  | .sFlagUA | .jUnone | .p5L | .p5U => true
+  | .jUnone | .p5L | .p5U => true
+  | _ => false
+
+/-- controller: this thread has set `_shutdown` and has not yet returned from `shutdown()` / the destructor -/
+def ownsPc (pc : MPc) : Bool := seqPc pc || qPc pc
+
+/-- controller: inside `reset()` / `start()` -/
+def restartPc : MPc → Bool
+  | .rsL | .rsU | .stL | .stU | .kL | .kC | .kU => true
   | _ => false
 
 /-- controller: constructor not finished -/
